@@ -58,7 +58,7 @@ fn drain(buf: &mut TokenBuffer<'static>, out: &mut [(TerminalIndex, u32, u32, To
 /// INVALID_TOKEN skip token covering exactly the gap.
 #[kani::proof]
 #[kani::unwind(8)]
-fn c14_gap_first_token() {
+pub(crate) fn c14_gap_first_token() {
     let fname = Arc::new(PathBuf::new());
     let (s1, e1): (u32, u32) = (kani::any(), kani::any());
     kani::assume(s1 < e1 && e1 <= 4);
@@ -92,7 +92,7 @@ fn c14_gap_first_token() {
 /// skip token [1, s2); contiguity up to e2.
 #[kani::proof]
 #[kani::unwind(8)]
-fn c14_gap_between_tokens() {
+pub(crate) fn c14_gap_between_tokens() {
     let fname = Arc::new(PathBuf::new());
     let (s2, e2): (u32, u32) = (kani::any(), kani::any());
     kani::assume(1 <= s2 && s2 < e2 && e2 <= 4);
@@ -125,7 +125,7 @@ fn c14_gap_between_tokens() {
 
 #[kani::proof]
 #[kani::unwind(8)]
-fn c14_add_token_numbers() {
+pub(crate) fn c14_add_token_numbers() {
     // token numbers of gap tokens: successor of the previous token's number, saturating at MAX
     let fname = Arc::new(PathBuf::new());
     let n1: TokenNumber = kani::any();
@@ -160,7 +160,7 @@ fn any_type() -> TerminalIndex {
 
 #[kani::proof]
 #[kani::unwind(8)]
-fn c17_buffer_filtering() {
+pub(crate) fn c17_buffer_filtering() {
     let fname = Arc::new(PathBuf::new());
     let tys = [any_type(), any_type(), any_type()];
     let ss: [bool; 3] = kani::any();
@@ -220,7 +220,7 @@ fn c17_buffer_filtering() {
 /// vacuity twin: must FAIL
 #[kani::proof]
 #[kani::unwind(8)]
-fn c14_twin_must_fail() {
+pub(crate) fn c14_twin_must_fail() {
     let fname = Arc::new(PathBuf::new());
     let mut buf = TokenBuffer::new();
     buf.add(tok(&fname, 1, 2, 5, 0, false), INPUT);
@@ -231,7 +231,7 @@ fn c14_twin_must_fail() {
 /// cost experiment: concrete span
 #[kani::proof]
 #[kani::unwind(8)]
-fn exp_gap_concrete() {
+pub(crate) fn exp_gap_concrete() {
     let fname = Arc::new(PathBuf::new());
     let mut buf = TokenBuffer::new();
     buf.add(tok(&fname, 1, 2, 5, 0, false), INPUT);
@@ -245,7 +245,7 @@ fn exp_gap_concrete() {
 /// cost experiment: add only, symbolic span, no draining
 #[kani::proof]
 #[kani::unwind(8)]
-fn exp_gap_add_only() {
+pub(crate) fn exp_gap_add_only() {
     let fname = Arc::new(PathBuf::new());
     let (s1, e1): (u32, u32) = (kani::any(), kani::any());
     kani::assume(s1 < e1 && e1 <= 4);
